@@ -396,7 +396,7 @@ def coq_program(name, xj):
 # ------------------------------------------------------------------------------------------------
 # stage: Coq obligations
 
-CASE_HEADER = '''From BB Require Import Bits Expr Sym Spec Validate Enum Prog.
+CASE_HEADER = '''From BB Require Import Bits Expr Sym Spec Validate Enum Prog History Builder Surface.
 Open Scope N_scope.
 Open Scope string_scope.
 Set Printing Width 100000.
@@ -425,7 +425,8 @@ def stage_obligations(ws, ds, verdicts, xl):
             if d['kind'] == 'bitfield':
                 src.append('Definition d_%s : decl :=\n  %s.' % (d['name'], decls.coq_decl(d)))
                 src.append('Definition p_%s : program :=\n  %s.' % (d['name'], coq_program(d['name'], xl[d['name']])))
-                entries.append('(%s, obligations d_%s p_%s)' % (translate.cstr(d['name']), d['name'], d['name']))
+                src.append('Definition x_%s : extras :=\n  %s.' % (d['name'], translate.coq_extras(d['name'], xl[d['name']])))
+                entries.append('(%s, all_obligations_of d_%s p_%s x_%s)' % (translate.cstr(d['name']), d['name'], d['name'], d['name']))
             else:
                 src.append('Definition e_%s : enum_decl :=\n  %s.' % (d['name'], decls.coq_enum(d)))
                 src.append('Definition ep_%s : enum_prog :=\n  %s.' % (d['name'], translate.coq_enum_prog(d['name'], xl[d['name']])))
@@ -471,22 +472,22 @@ def stage_decisions(ws, ds):
     shutil.rmtree(cdir, ignore_errors=True)
     os.makedirs(cdir)
     todo = [d for d in ds if not d.get('unstructured')]
-    src = ['From BB Require Import Bits Spec Parse Enum.', 'From Coq Require Import String.', 'Open Scope N_scope.', 'Open Scope string_scope.',
+    src = ['From BB Require Import Bits Spec Parse Enum Builder Surface.', 'From Coq Require Import String.', 'Open Scope string_scope.', 'Open Scope N_scope.',
            'Set Printing Width 100000.', 'Set Printing Depth 1000000.']
     entries = []
     for d in todo:
         if d['kind'] == 'bitfield':
-            entries.append('(%s, valid_decl %s, accept_decl %s)' % (translate.cstr(d['name']), decls.coq_decl(d), decls.coq_decl(d)))
+            entries.append('(let d := %s in (%s, valid_decl d, accept_decl d, offered d))' % (decls.coq_decl(d), translate.cstr(d['name'])))
         else:
-            entries.append('(%s, valid_enum %s, enum_accept %s)' % (translate.cstr(d['name']), decls.coq_enum(d), decls.coq_enum(d)))
+            entries.append('(let e := %s in (%s, valid_enum e, enum_accept e, false))' % (decls.coq_enum(d), translate.cstr(d['name'])))
     src.append('Definition decisions := Eval vm_compute in [\n  %s].' % ';\n  '.join(entries))
     src.append('Print decisions.')
     fn = os.path.join(cdir, 'decisions.v')
     open(fn, 'w').write('\n'.join(src) + '\n')
     p = run(['coqc', '-noglob', '-Q', os.path.join(COQ, 'theories'), 'BB', fn], cwd=cdir, timeout=3000)
     res = {}
-    for m in re.finditer(r'\("([^"]*)",\s*(true|false),\s*(true|false)\)', p.stdout):
-        res[m.group(1)] = [m.group(2) == 'true', m.group(3) == 'true']
+    for m in re.finditer(r'\("([^"]*)",\s*(true|false),\s*(true|false),\s*(true|false)\)', p.stdout):
+        res[m.group(1)] = [m.group(2) == 'true', m.group(3) == 'true', m.group(4) == 'true']
     if len(res) != len(todo):
         raise RuntimeError('cannot parse decisions output (%d of %d)' % (len(res), len(todo)))
     out = {'decisions': res, 'wall_s': time.time() - t0}
@@ -518,11 +519,19 @@ def parse_coq_lists(txt):
     return json.loads(txt)
 
 
-def build_runner(ws, todo, by_name, enums=()):
+def has_builder(xj, name):
+    for it in xj.get('items', []):
+        if it['kind'] == 'impl' and it['self_ty'] == name and it['trait'] is None:
+            if any(fi['kind'] == 'fn' and fi['name'] == 'builder' for fi in it['items']):
+                return True
+    return False
+
+
+def build_runner(ws, todo, by_name, enums=(), builders=()):
     """build src/bin/runner.rs for the declarations in `todo` in the dev and release profiles"""
     os.makedirs(ws.path('crate', 'src', 'bin'), exist_ok=True)
     from . import runner
-    open(ws.path('crate', 'src', 'bin', 'runner.rs'), 'w').write(runner.runner_source(todo, by_name, enums))
+    open(ws.path('crate', 'src', 'bin', 'runner.rs'), 'w').write(runner.runner_source(todo, by_name, enums, builders))
     env = {'BITBYBIT_VERIF_DUMP_DIR': ws.path('dumps2'), 'CARGO_TARGET_DIR': ws.target}
     os.makedirs(ws.path('dumps2'), exist_ok=True)
     with cargo_lock():
@@ -548,6 +557,8 @@ def behaviour_compare(ws, todo, allcases, by_name, xl, subdir, max_mism=200):
                     lines.append('G %d %d' % (fidx[o[1]], o[2]))
                 elif o[0] in 'WS':
                     lines.append('%s %d %d %x' % (o[0], fidx[o[1]], o[2], o[3]))
+                elif o[0] == 'B':
+                    lines.append('B ' + ' '.join('%x' % x for x in o[1]))
                 else:
                     lines.append('R')
     cdir = ws.path(subdir)
@@ -588,7 +599,7 @@ def behaviour_compare(ws, todo, allcases, by_name, xl, subdir, max_mism=200):
 
     def do_shard(k):
         sh = shards[k]
-        src = [CASE_HEADER.replace('Enum Prog.', 'Enum Prog Run.')]
+        src = [CASE_HEADER.replace('Surface.', 'Surface Run.')]
         for d in sh:
             src.append('Definition d_%s : decl :=\n  %s.' % (d['name'], decls.coq_decl(d)))
             src.append('Definition p_%s : program :=\n  %s.' % (d['name'], coq_program(d['name'], xl[d['name']])))
@@ -612,7 +623,7 @@ def behaviour_compare(ws, todo, allcases, by_name, xl, subdir, max_mism=200):
     mism = []
     n_ops = 0
     n_scen = 0
-    stats = {'G': 0, 'W': 0, 'S': 0, 'R': 0, 'panic': 0, 'ok': 0, 'err': 0}
+    stats = {'G': 0, 'W': 0, 'S': 0, 'R': 0, 'B': 0, 'panic': 0, 'ok': 0, 'err': 0}
     distinct = set()
 
     def norm(s):
@@ -662,12 +673,14 @@ def behaviour_compare(ws, todo, allcases, by_name, xl, subdir, max_mism=200):
                         valid = rd in cases.enum_valid_values(ed)
                         if (tagd == 'ok') != valid:
                             bad = 'Option<enum> getter returned %s for raw bits %d' % (tagd, rd)
-                if o[0] != 'R' and (o[0] == 'G' or o[3] != 0 or r0 != 0):
+                if o[0] == 'B':
+                    distinct.add((name, 'builder', tuple(o[1])))
+                elif o[0] != 'R' and (o[0] == 'G' or o[3] != 0 or r0 != 0):
                     distinct.add((name, o[1], o[0]))
                 if bad:
                     if len(mism) < max_mism:
                         mism.append({'decl': name, 'scenario': si, 'r0': r0, 'ops': [list(x) for x in ops[:oi + 1]], 'op_index': oi,
-                                     'field': o[1] if o[0] != 'R' else None, 'op': o[0], 'what': bad,
+                                     'field': o[1] if o[0] in 'GWS' else None, 'op': o[0], 'what': bad,
                                      'rust_dev': rs['dev'][oi], 'rust_release': rs['release'][oi],
                                      'eval_checked': ec, 'eval_unchecked': eu, 'spec': sp})
                     else:
@@ -791,6 +804,157 @@ def enum_compare(ws, enums, xl, tier, seed):
     return {'enums': len(enums), 'conversions': nconv, 'stats': stats, 'mismatches': mism, 'n_mismatches': len(mism)}
 
 
+def stage_extra(ws, ds, verdicts, xl, dec):
+    """crates that must fail to compile (C14, C17), const-context evaluation (C15), no_std / docs / unsafe regimes (C18)"""
+    if ws.done('extra'):
+        return ws.load('extra')
+    from . import crates
+    import sys as _sys
+    t0 = time.time()
+    P = _sys.modules[__name__]
+    by_name = {d['name']: d for d in ds}
+    acc = set(n for n in verdicts['accepted'] if n in xl)
+    offered = {n: v[2] for n, v in dec.items()}
+    builders = set(d['name'] for d in ds if d['kind'] == 'bitfield' and d['name'] in acc and has_builder(xl[d['name']], d['name']))
+    res = {'cfail': crates.compile_fail(P, ws, ds, acc, offered),
+           'const': crates.const_crate(P, ws, ds, acc, builders, by_name, ws.seed, ws.tier),
+           'regimes': crates.regimes_crate(P, ws, ds, acc)}
+    res['wall_s'] = time.time() - t0
+    ws.mark('extra', res)
+    log('extra: %d must-not-compile probes (%d mismatches); const: %d items, %d values (%d mismatches); regimes: %s (%d mismatches); %.1fs' % (
+        res['cfail']['probes'], res['cfail']['n_mismatches'], res['const']['items'], res['const']['values'], res['const']['n_mismatches'],
+        res['regimes']['regimes'], res['regimes']['n_mismatches'], res['wall_s']))
+    return res
+
+
+def coq_string_lit(t):
+    return '"' + t.replace('"', '""') + '"'
+
+
+def facts_compare(ws, todo, by_name, seed):
+    """static facts (size, alignment, ZERO, DEFAULT, Default::default(), new()) and the text `debug` prints:
+    compiled code (dev, release) vs the model (Coq: storage, init_value, DebugFmt.v)"""
+    import random
+    from . import cases
+    if not todo:
+        return {'programs': 0, 'debug_texts': 0, 'mismatches': [], 'n_mismatches': 0}
+    lines = []
+    raws = {}
+    for d in todo:
+        lines.append('D %s' % d['name'])
+        lines.append('Q')
+        if d.get('debug'):
+            rng = random.Random('dbg|%s|%s' % (seed, d['name']))
+            raws[d['name']] = cases.raws_for(rng, d['base'], None, k_random=4)
+            for r in raws[d['name']]:
+                lines.append('N %x' % r)
+                lines.append('F')
+    cdir = ws.path('coqf')
+    shutil.rmtree(cdir, ignore_errors=True)
+    os.makedirs(cdir)
+    cf = os.path.join(cdir, 'cases.txt')
+    open(cf, 'w').write('\n'.join(lines) + '\n')
+    outs = {}
+    for prof in ('dev', 'release'):
+        p = subprocess.run([ws.path('runner-' + prof)], stdin=open(cf), stdout=subprocess.PIPE, stderr=subprocess.PIPE, text=True,
+                           timeout=3000)
+        if p.returncode != 0:
+            raise RuntimeError('runner (%s) failed: %s' % (prof, p.stderr[-2000:]))
+        o = p.stdout.split('\n')
+        if o and o[-1] == '':
+            o.pop()
+        if len(o) != len(lines):
+            raise RuntimeError('runner (%s) produced %d lines for %d inputs' % (prof, len(o), len(lines)))
+        outs[prof] = o
+    mism = []
+    # walk the outputs
+    pos = 0
+    facts = {}
+    texts = {}
+    for d in todo:
+        pos += 1
+        facts[d['name']] = {p: outs[p][pos] for p in outs}
+        pos += 1
+        texts[d['name']] = []
+        for r in raws.get(d['name'], []):
+            pos += 1
+            texts[d['name']].append({p: outs[p][pos] for p in outs})
+            pos += 1
+    shards = [todo[i::NSHARDS] for i in range(NSHARDS)]
+    shards = [s for s in shards if s]
+
+    def do_shard(k):
+        src = ['From BB Require Import Bits Expr Spec Enum Builder Surface DebugFmt Run.', 'From Coq Require Import String.',
+               'Open Scope string_scope.', 'Open Scope N_scope.', 'Set Printing Width 100000.', 'Set Printing Depth 1000000.']
+        for d in shards[k]:
+            n = d['name']
+            src.append('Definition d_%s : decl := %s.' % (n, decls.coq_decl(d)))
+            checks = []
+            if d.get('debug'):
+                env = []
+                seen = set()
+
+                def add_deps(x):
+                    for dep in sorted(deps_of(x)):
+                        if dep in seen or dep not in by_name:
+                            continue
+                        seen.add(dep)
+                        t = by_name[dep]
+                        if t['kind'] == 'enum':
+                            env.append('(%s, TyEnum %s)' % (translate.cstr(dep), decls.coq_enum(t)))
+                        else:
+                            env.append('(%s, TyStruct %s)' % (translate.cstr(dep), decls.coq_decl(t)))
+                            add_deps(t)
+                add_deps(d)
+                src.append('Definition env_%s : list (string * tydef) := [%s].' % (n, ';\n  '.join(env)))
+                for r, t in zip(raws[n], texts[n]):
+                    got = t['dev']
+                    if ' ||| ' in got:
+                        a, b = got.split(' ||| ', 1)
+                        a = a.replace('\\n', '\n')
+                        b = b.replace('\\n', '\n')
+                        checks.append('String.eqb (debug_compact env_%s d_%s %d) %s && String.eqb (debug_pretty env_%s d_%s %d) %s' % (
+                            n, n, r, coq_string_lit(a), n, n, r, coq_string_lit(b)))
+                    else:
+                        checks.append('false')
+            src.append('Definition f_%s : N * N * list bool := Eval vm_compute in (storage (d_W d_%s), init_value d_%s, [%s]).' % (
+                n, n, n, '; '.join(checks)))
+            src.append('Print f_%s.' % n)
+        fn = os.path.join(cdir, 'facts_%d.v' % k)
+        open(fn, 'w').write('\n'.join(src) + '\n')
+        p = run(['coqc', '-noglob', '-Q', os.path.join(COQ, 'theories'), 'BB', fn], cwd=cdir, check=False, timeout=3000)
+        return k, p.returncode, p.stdout, p.stderr
+
+    model = {}
+    with ThreadPoolExecutor(max_workers=16) as ex:
+        for k, rc, out, err in ex.map(do_shard, range(len(shards))):
+            if rc != 0:
+                raise RuntimeError('coqc failed on facts shard %d:\n%s' % (k, err[-3000:]))
+            for m in re.finditer(r'f_(\w+)\s*=\s*\((\d+),\s*(\d+),\s*\[([^\]]*)\]\)', out):
+                model[m.group(1)] = (int(m.group(2)), int(m.group(3)), [x.strip() == 'true' for x in m.group(4).split(';') if x.strip()])
+    ntext = 0
+    for d in todo:
+        n = d['name']
+        if n not in model:
+            mism.append({'decl': n, 'what': 'model output missing'})
+            continue
+        st, init, oks = model[n]
+        dv = '%x' % init if d.get('default') is not None else '-'
+        exp = '%d %d 0 0 %s %s %s' % (st // 8, st // 8, dv, dv, dv)
+        for p in outs:
+            if facts[n][p] != exp:
+                mism.append({'decl': n, 'what': 'size/alignment/ZERO/DEFAULT/Default::default()/new() differ from the model', 'profile': p,
+                             'rust': facts[n][p], 'expected': exp,
+                             'format': 'size_of align_of ZERO.raw const-ZERO.raw DEFAULT.raw Default::default().raw new().raw'})
+        for k, r in enumerate(raws.get(n, [])):
+            ntext += 1
+            if texts[n][k]['dev'] != texts[n][k]['release']:
+                mism.append({'decl': n, 'what': 'debug text differs between dev and release', 'raw': r, 'rust': texts[n][k]})
+            elif k >= len(oks) or not oks[k]:
+                mism.append({'decl': n, 'what': 'debug text differs from the model (DebugFmt.v)', 'raw': r, 'rust': texts[n][k]['dev']})
+    return {'programs': len(todo), 'debug_programs': len(raws), 'debug_texts': ntext, 'mismatches': mism[:100], 'n_mismatches': len(mism)}
+
+
 def stage_behaviour(ws, ds, verdicts, xl):
     if ws.done('behaviour'):
         return ws.load('behaviour')
@@ -801,18 +965,22 @@ def stage_behaviour(ws, ds, verdicts, xl):
     acc = set(verdicts['accepted'])
     todo = [d for d in ds if d['kind'] == 'bitfield' and d['name'] in acc and d['name'] in xl and not d.get('unstructured')]
     enums = [d for d in ds if d['kind'] == 'enum' and d['name'] in acc and d['name'] in xl]
-    build_runner(ws, todo, by_name, enums)
+    builders = set(d['name'] for d in todo if has_builder(xl[d['name']], d['name']))
+    build_runner(ws, todo, by_name, enums, builders)
     t_build = time.time() - t0
     allcases = {}
     for d in todo:
         rng = random.Random('%s|%s' % (ws.seed, d['name']))
-        allcases[d['name']] = cases.gen_cases(d, by_name, rng, ws.tier)
+        allcases[d['name']] = cases.gen_cases(d, by_name, rng, ws.tier, d['name'] in builders)
     res = behaviour_compare(ws, todo, allcases, by_name, xl, 'coqb')
     res['enum'] = enum_compare(ws, enums, xl, ws.tier, ws.seed)
+    res['facts'] = facts_compare(ws, todo, by_name, ws.seed)
     res['wall_s'] = time.time() - t0
     res['build_s'] = t_build
     ws.mark('behaviour', res)
-    log('behaviour: %d programs, %d scenarios, %d ops, %d mismatches; %d enums, %d conversions, %d mismatches; %.1fs (build %.1fs)' % (
+    log('behaviour: %d programs, %d scenarios, %d ops, %d mismatches; %d enums, %d conversions, %d mismatches; '
+        'facts: %d programs, %d debug texts, %d mismatches; %.1fs (build %.1fs)' % (
         res['programs'], res['scenarios'], res['ops'], res['n_mismatches'], res['enum']['enums'], res['enum']['conversions'],
-        res['enum']['n_mismatches'], res['wall_s'], t_build))
+        res['enum']['n_mismatches'], res['facts']['programs'], res['facts']['debug_texts'], res['facts']['n_mismatches'],
+        res['wall_s'], t_build))
     return res
